@@ -228,14 +228,15 @@ def make_singleton_classes(log, tlog):
 
     def init(self, *args, **kwargs):
         if args and args[0] == "boom":
-            raise ValueError("boom")
+            # the constructors of the falsy class fail with an exception that is not an `Exception`
+            raise (pool.Interrupt if type(self).__name__ == "SC" else ValueError)("boom")
         log.append((self, args, kwargs))
 
     counter = [0]
 
     def tinit(self, *args, **kwargs):
         if args and args[0] == "boom":
-            raise ValueError("boom")
+            raise (pool.Interrupt if type(self).__name__ in ("TC", "TD") else ValueError)("boom")
         if not hasattr(self, "_eg_n"):
             self._eg_n = counter[0]
             counter[0] += 1
@@ -365,6 +366,36 @@ class Real:
         for c in VCLS.values():
             if c is not Vertex and "NEIGHBOR_CACHING" in vars(c):
                 del c.NEIGHBOR_CACHING
+        return "ok"
+
+    def reload(self):
+        """the caller SAVES the whole graph and goes on working with the LOADED copy (in turn: pickle, copy.deepcopy,
+        nrpickler + pickle.loads); the copies are registered under the names of their originals, the originals are
+        dropped.  Anything the library keys by `id()` or keeps outside the objects must survive this."""
+        import copy
+        if self.keep_mode:
+            return "ok"                       # the caller's containers refer to the originals
+        n = self._reloads = getattr(self, "_reloads", 0) + 1
+        old = (self.V, self.L, self.W)
+        try:
+            if n % 3 == 1:
+                new = pickle.loads(pickle.dumps(old))
+            elif n % 3 == 2:
+                new = copy.deepcopy(old)
+            else:
+                from edgegraph.output import nrpickler
+                new = pickle.loads(nrpickler.dumps(old))
+        except (pickle.PicklingError, AttributeError, TypeError):
+            # objects of the HARNESS that cannot be pickled by reference (classes / functions made at run time)
+            new = copy.deepcopy(old)
+        self.V, self.L, self.W = [], [], []
+        self._vid, self._lid, self._wid = {}, {}, {}
+        for v in new[0]:
+            self.reg_v(v)
+        for l in new[1]:
+            self.reg_l(l)
+        for w in new[2]:
+            self.reg_w(w)
         return "ok"
 
     def vname(self, v):
@@ -747,6 +778,8 @@ class Real:
             return ""
         try:
             return self.dispatch(toks)
+        except pool.Interrupt:
+            return "err ValueError"          # "the constructor raised": which class it raised is not part of the protocol
         except Exception as exc:  # noqa: BLE001
             return "err " + errname(exc)
 
@@ -758,6 +791,8 @@ class Real:
             # (defined inside a function) and whose methods use zero-argument super()
             self.byvalue = len(toks) > 1 and toks[1] == "byvalue"
             return r
+        if op == "reload":
+            return self.reload()
         if op == "obs":
             return self.obs()
         if op == "vertex":
@@ -782,6 +817,17 @@ class Real:
                 # the initialiser runs twice with the same (re-iterable) arguments
                 cls = self._di.setdefault(cls, double_init_class(cls))
                 uarg = us if kind == 1 else tuple(us)
+            uf = self.opt(opts, "uf")
+            if uf:
+                # `universes=` is a generator that RAISES after yielding `uf` of the universes (a lookup of an unknown
+                # name in the middle of a comprehension): the constructor must raise without having touched anything
+                def failing(us_=list(us), k=int(uf)):
+                    for i_, u_ in enumerate(us_):
+                        if i_ == k:
+                            raise Fault("universes iterable")
+                        yield u_
+                    raise Fault("universes iterable")
+                uarg = failing()
             hook = self.opt(opts, "h")
             if hook:
                 # a bound method of a universe among the constructor's attributes (so that it precedes the
